@@ -55,7 +55,10 @@ StrTable == << <<>>,                 \* 1  ""
                <<"b","a">>,          \* 5  "ba"
                <<"x","b">>,          \* 6  "xb"
                <<"a","a">>,          \* 7  "aa"
-               <<"a","b","x">> >>    \* 8  "abx"
+               <<"a","b","x">>,      \* 8  "abx"
+               <<"0">>,              \* 9  "0"   numeric strings (coercion)
+               <<"1">>,              \* 10 "1"
+               <<"2">> >>            \* 11 "2"
 Str(v) == StrTable[v[2]]
 
 IsPrefix(p, s) == Len(p) <= Len(s) /\ \A i \in 1..Len(p) : s[i] = p[i]
